@@ -15,6 +15,9 @@ Streams
   fitvar  float    fit_origin's curve_fit variants (constant, plane, parabola, bezier_two) on origins exactly on
                    such a surface, with mask=None / all-True / partial masks, vs the surface and vs Model surfaceF
                    run at Rat; parabola also through _set_intensities_com
+  forms   exact    input forms of the origin setters — flat (N,2) / (sr,sc,2) scan grid, tensor / ndarray / nested list, a single
+                   (row, col) pair — on every scan shape incl. 1xn, nx1, 2xn, nx2, 2x2: stored origins, fits and shifts must be
+                   identical for all forms (and the surface / the roll)
   shift   exact    integer fitted origins: shift_origin_to for several batch sizes vs np.roll and vs the
                    model's periodic bilinear sampler run at Rat
   agree   1 ulp    the two real classes on the SAME dataset against each other: CenterOfMassOriginModel vs
@@ -75,9 +78,19 @@ def f32(x):
 # ---------------------------------------------------------------------------------------
 # generators
 
+def pick_scan(rng, lo=1, hi=5):
+    """scan shapes with the degenerate classes 1xn, nx1, 2xn, nx2, 2x2 (and 1x1) well represented; `lo` = smallest extent allowed"""
+    n = rng.randint(max(3, lo), hi)
+    opts = [((rng.randint(max(2, lo), hi), rng.randint(max(2, lo), hi)), 8)]
+    if lo <= 2:
+        opts += [((2, n), 3), ((n, 2), 3), ((2, 2), 2)]
+    if lo <= 1:
+        opts += [((1, 1), 1), ((1, rng.randint(2, hi)), 2), ((rng.randint(2, hi), 1), 2)]
+    return rng.weighted(opts)
+
+
 def gen_dataset(rng, small=False):
-    sr, sc = rng.weighted([((1, 1), 1), ((1, rng.randint(2, 5)), 2), ((rng.randint(2, 5), 1), 2),
-                           ((rng.randint(2, 5), rng.randint(2, 5)), 10)])
+    sr, sc = pick_scan(rng)
     h, w = rng.randint(2, 9), rng.randint(2, 9)
     if rng.chance(0.7) and h == w:
         w = w + 1 if w < 9 else w - 1
@@ -423,7 +436,9 @@ def scale_case(ctx, drv, sc_):
 # stream: fit
 
 def gen_fit(rng):
-    sr, sc = rng.weighted([((rng.randint(2, 6), rng.randint(2, 6)), 8), ((1, rng.randint(2, 6)), 1), ((rng.randint(2, 6), 1), 1)])
+    sr, sc = pick_scan(rng, 1, 6)
+    if (sr, sc) == (1, 1):
+        sc = 2
     kind = "plane" if min(sr, sc) >= 2 and rng.chance(0.7) else "constant"
     q = 8
 
@@ -455,8 +470,15 @@ def fit_case(ctx, drv, fc):
     ctx.dist[f"fit:scan={'1xn' if min(sr, sc) == 1 else 'non-square' if sr != sc else 'square'}"] += 1
     # ---------------- torch origin model
     om = make_origin_model(np.ones((sr, sc, 3, 4), dtype=np.float32))
-    om.origin_measured = torch.tensor(np.stack([zr.ravel(), zc.ravel()], -1), dtype=torch.float32)
-    om.fit_origin_background(fit_method=kind)
+    # alternative entry points of the same operation: the measured origins as an (n, 2) list or as an (sr, sc, 2) scan grid;
+    # the probe positions inferred from the 4-D dataset or given explicitly (the same raster; tensor or ndarray, flat or grid)
+    route = (sr * 5 + sc * 3 + int(round(8 * fc["pr"][2]))) % 6
+    om_in = np.stack([zr, zc], -1).astype(np.float32)            # (sr, sc, 2)
+    om.origin_measured = torch.tensor(om_in if route % 2 else om_in.reshape(-1, 2))
+    pos_grid = np.stack([xs, ys], -1).astype(np.float32)
+    pp = [None, None, torch.tensor(pos_grid.reshape(-1, 2)), pos_grid.reshape(-1, 2), torch.tensor(pos_grid), pos_grid][route]
+    ctx.dist[f"fit:origin_measured={'grid' if route % 2 else 'flat'},positions={'inferred' if pp is None else 'explicit'}"] += 1
+    om.fit_origin_background(probe_positions=pp, fit_method=kind)
     got = om.origin_fitted.detach().cpu().numpy().astype(np.float64)
     ctx.count()
     ctx.mark(("fit", "torch", sr, sc, kind))
@@ -549,7 +571,7 @@ def surface(kind, th, x, y):
 def gen_fitvar(rng):
     kind = rng.weighted([("constant", 1), ("plane", 3), ("parabola", 3), ("bezier_two", 3)])
     lo = 3 if kind in ("parabola", "bezier_two") else 2
-    sr, sc = rng.randint(lo, 6), rng.randint(lo, 6)
+    sr, sc = pick_scan(rng, lo, 6)
     if kind == "constant" and rng.chance(0.3):
         sr = 1
 
@@ -626,10 +648,119 @@ def fitvar_case(ctx, drv, fv):
 
 
 # ---------------------------------------------------------------------------------------
+# stream: forms — every form in which origins can be handed to the origin model's setters (flat (N,2) / (sr,sc,2) scan grid,
+# tensor / ndarray / nested list, a single (row, col) pair) must store the same origins and give identical fits and shifts,
+# on every scan shape incl. 1xn, nx1, 2xn, nx2, 2x2
+
+FORMS = ["flat_tensor", "flat_ndarray", "flat_list", "grid_tensor", "grid_ndarray", "grid_list"]
+
+
+def as_form(vals, sr, sc, form):
+    import numpy as np
+    import torch
+    a = np.asarray(vals, dtype=np.float32).reshape(sr * sc, 2)
+    if form.startswith("grid"):
+        a = a.reshape(sr, sc, 2)
+    if form.endswith("tensor"):
+        return torch.tensor(a)
+    if form.endswith("list"):
+        return a.tolist()
+    return a.copy()
+
+
+def gen_forms(rng):
+    sr, sc = pick_scan(rng, 1, 5)
+    h, w = rng.randint(2, 7), rng.randint(2, 7)
+    same = rng.chance(0.25)
+    n = sr * sc
+    one = [rng.randint(-h, 2 * h), rng.randint(-w, 2 * w)]
+    origins = [one] * n if same else [[rng.randint(-h, 2 * h), rng.randint(-w, 2 * w)] for _ in range(n)]
+    plane = [rng.randint(-8, 8) / 8, rng.randint(-8, 8) / 8, rng.randint(16, 64) / 8, rng.randint(-8, 8) / 8, rng.randint(-8, 8) / 8, rng.randint(16, 64) / 8]
+    data = [[[rng.randint(1, 200) for _ in range(w)] for _ in range(h)] for _ in range(n)]
+    return {"sr": sr, "sc": sc, "h": h, "w": w, "origins": origins, "same": same, "plane": plane, "data": data}
+
+
+def forms_case(ctx, drv, fm):
+    import numpy as np
+    import torch
+    sr, sc, h, w = fm["sr"], fm["sc"], fm["h"], fm["w"]
+    n = sr * sc
+    arr = np.array(fm["data"], dtype=np.float32).reshape(sr, sc, h, w)
+    case = {"stream": "forms", "fm": fm}
+    shape_cls = "1x1" if n == 1 else "1xn" if sr == 1 else "nx1" if sc == 1 else "2x2" if (sr, sc) == (2, 2) else "2xn" if sr == 2 else "nx2" if sc == 2 else "general"
+    ctx.dist[f"forms:scan={shape_cls}"] += 1
+    xs, ys = np.meshgrid(np.arange(sr), np.arange(sc), indexing="ij")
+    kind = "plane" if min(sr, sc) >= 2 else "constant"
+    pl = fm["plane"]
+    if kind == "plane":
+        meas = np.stack([pl[0] * xs + pl[1] * ys + pl[2], pl[3] * xs + pl[4] * ys + pl[5]], -1).reshape(n, 2).astype(np.float32)
+    else:
+        meas = np.tile(np.array([[pl[2], pl[5]]], dtype=np.float32), (n, 1))
+    orig = np.array(fm["origins"], dtype=np.float32)
+    want_roll = np.stack([np.roll(arr.reshape(n, h, w)[i], (-fm["origins"][i][0], -fm["origins"][i][1]), axis=(0, 1)) for i in range(n)])
+    forms = list(FORMS)
+    ref = {}
+    for form in forms + (["pair_tuple", "pair_tensor"] if fm["same"] else []):
+        ctx.count()
+        ctx.mark(("forms", shape_cls, form, kind))
+        ctx.dist[f"forms:form={form}"] += 1
+        fcase = dict(case, form=form)
+        om = make_origin_model(arr)
+        try:
+            om.origin_measured = as_form(meas, sr, sc, form) if not form.startswith("pair") else as_form(meas, sr, sc, "flat_tensor")
+            if form == "pair_tuple":
+                om.origin_fitted = (float(orig[0, 0]), float(orig[0, 1]))
+            elif form == "pair_tensor":
+                om.origin_fitted = torch.tensor(orig[0])
+            else:
+                om.origin_fitted = as_form(orig, sr, sc, form)
+        except Exception as e:  # noqa
+            ctx.pred_fail("origin-setter-rejects-form", f"origin setter raised {type(e).__name__} for origins given as {form} on a {sr}x{sc} scan", fcase, observed=str(e)[:200], required="accepted like the flat (N, 2) form")
+            continue
+        sm, sf = om.origin_measured.detach().cpu().numpy(), om.origin_fitted.detach().cpu().numpy()
+        if sm.shape != (n, 2) or sf.shape != (n, 2) or not np.array_equal(sm, meas) or not np.array_equal(sf, orig):
+            i = int(np.argmax(np.abs(sf.reshape(-1, 2)[:n] - orig).max(1))) if sf.size == orig.size else 0
+            ctx.pred_fail("origin-setter-form-scrambles", f"origins handed to the origin_measured / origin_fitted setters as {form} on a {sr}x{sc} scan are not stored pattern by pattern as (row, col)", fcase,
+                          observed={"pattern": i, "stored_fitted": sf.reshape(-1, 2)[i].tolist() if sf.size else None, "stored_measured_first": sm.reshape(-1, 2)[:2].tolist()},
+                          required={"fitted": orig[i].tolist(), "measured_first": meas[:2].tolist()})
+        # shift with the handed-in fitted origins (integer valued): the circular roll, identical for every form
+        om.shift_origin_to(origin_coordinate=(0, 0), max_batch_size=None if n % 2 else 2)
+        sh_ = om.shifted_tensor.detach().cpu().numpy().reshape(n, h, w).astype(np.float64)
+        dev = float(np.abs(sh_ - want_roll).max()) / float(arr.max())
+        if not dev <= 1e-5:
+            i = int(np.argmax(np.abs(sh_ - want_roll).reshape(n, -1).max(1)))
+            ctx.pred_fail("shift-int-not-roll", f"shift_origin_to with integer fitted origins given as {form} on a {sr}x{sc} scan is not the circular roll", fcase,
+                          observed={"pattern": i, "origin": fm["origins"][i], "shifted_first_row": sh_[i][0].tolist()}, required={"roll_first_row": want_roll[i][0].tolist()})
+        # fit of the handed-in measured origins (exactly on a plane / constant): the surface, identical for every form
+        om.fit_origin_background(fit_method=kind)
+        fit = om.origin_fitted.detach().cpu().numpy().astype(np.float64)
+        scale = max(1.0, float(np.abs(meas).max()))
+        dfit = float(np.abs(fit - meas).max()) / scale
+        if not dfit <= TOL32:
+            ctx.pred_fail(f"fit-torch-{kind}", f"fit_origin_background(fit_method='{kind}') on measured origins given as {form} ({sr}x{sc} scan) does not return the surface they lie on", fcase,
+                          observed={"max_rel_dev": dfit}, required="the surface (5e-4 relative)")
+        if not ref:
+            ref = {"form": form, "shift": sh_, "fit": fit}
+        elif not (np.array_equal(ref["shift"], sh_) and np.array_equal(ref["fit"], fit)):
+            ctx.pred_fail("origin-forms-disagree", f"the same origins given as {form} and as {ref['form']} ({sr}x{sc} scan) give different shifts / fits", fcase,
+                          observed={"shift_max_abs_dev": float(np.abs(ref["shift"] - sh_).max()), "fit_max_abs_dev": float(np.abs(ref["fit"] - fit).max())}, required="bit-identical")
+    # model tie (once per case): the exact-carrier shift of the intended origins vs what the forms produced
+    if ref:
+        flat = [v for pat in fm["data"] for row in pat for v in row]
+        m = drv.ask({"op": "shift", "h": h, "w": w, "b": 1, "data": flat, "coord": [0, 0], "origins": fm["origins"]})
+        if "ok" not in m:
+            raise HarnessError(f"driver error {m}")
+        mod = np.array([[float(frac_of(v)) for v in p_] for p_ in m["ok"]]).reshape(n, h, w)
+        if float(np.abs(mod - ref["shift"]).max()) / float(arr.max()) > 1e-5:
+            ctx.disagree("forms-shift", case, mod.tolist(), ref["shift"].tolist(), note=f"shiftOriginTo at Rat vs shifted_tensor (origins given as {ref['form']})")
+    ctx.sample({"stream": "forms", "scan": [sr, sc], "det": [h, w], "forms": forms + (["pair_tuple", "pair_tensor"] if fm["same"] else []), "kind": kind}, limit=11)
+
+
+# ---------------------------------------------------------------------------------------
 # stream: shift
 
 def gen_shift(rng):
-    sr, sc = rng.randint(1, 4), rng.randint(1, 4)
+    sr, sc = pick_scan(rng, 1, 4)
     h, w = rng.randint(2, 8), rng.randint(2, 8)
     if h == w and rng.chance(0.7):
         w = w + 1
@@ -649,7 +780,10 @@ def shift_case(ctx, drv, sh, batch_sizes=None):
     arr = np.array(sh["data"], dtype=np.float32).reshape(sr, sc, h, w)
     om = make_origin_model(arr)
     om.origin_measured = torch.zeros((n, 2))
-    om.origin_fitted = torch.tensor(sh["origins"], dtype=torch.float32)
+    of = torch.tensor(sh["origins"], dtype=torch.float32)
+    grid_route = (sr + 2 * sc + h) % 2 == 1
+    om.origin_fitted = of.reshape(sr, sc, 2) if grid_route else of       # the fitted origins as an (sr, sc, 2) scan grid or an (n, 2) list
+    ctx.dist[f"shift:origin_fitted={'grid' if grid_route else 'flat'}"] += 1
     cy, cx = sh["coord"]
     want = np.stack([np.roll(arr.reshape(n, h, w)[i], (-(sh["origins"][i][0] - cy), -(sh["origins"][i][1] - cx)), axis=(0, 1)) for i in range(n)])
     flat = [v for pat in sh["data"] for row in pat for v in row]
@@ -729,6 +863,10 @@ def run(ctx):
         for _ in range(ctx.n(120, 800)):
             fv = gen_fitvar(rng)
             guarded(ctx, fitvar_case, {"stream": "fitvar", "fv": fv}, ctx, drv, fv)
+        rng = ctx.rng.fork(8)
+        for _ in range(ctx.n(90, 600)):
+            fm = gen_forms(rng)
+            guarded(ctx, forms_case, {"stream": "forms", "fm": fm}, ctx, drv, fm)
         rng = ctx.rng.fork(3)
         for _ in range(ctx.n(150, 1000)):
             sh = gen_shift(rng)
@@ -756,6 +894,8 @@ def replay(ctx, rep):
             scale_case(ctx, drv, case["sc"])
         elif st == "fitvar":
             fitvar_case(ctx, drv, case["fv"])
+        elif st == "forms":
+            forms_case(ctx, drv, case["fm"])
         elif st == "shift":
             shift_case(ctx, drv, case["sh"], batch_sizes=[case["b"]] if "b" in case else None)
         elif st == "e2e":
